@@ -150,7 +150,8 @@ pub fn run(ctx: &mut Ctx) {
                 // residual figures (both kinds of status: figures describe the de-homogenised point)
                 // the oracle's own evaluation overflows when the returned point has entries beyond ~1e150
                 // (tau of order 1e-199 after hundreds of stalled iterations): no recomputation, no judgement
-                let big = !(ev.res_p.is_finite() && ev.res_d.is_finite()) || ev.res_p.max(ev.res_d) > 1e200;
+                let huge_point = x.iter().chain(&s).chain(&z).fold(0.0f64, |m, v| m.max(v.abs())) > 1e150;
+                let big = huge_point || !(ev.res_p.is_finite() && ev.res_d.is_finite()) || ev.res_p.max(ev.res_d) > 1e200;
                 if big {
                     ctx.bump("residual_figures_not_recomputable_(overflow)");
                 }
